@@ -171,6 +171,32 @@ func runC19(c *core.Ctx) {
 		}
 		bound += fmt.Sprintf("; every ordered pair of attempts (second one inside a function) for %d values", len(vals))
 	}
+	if ok && !c.Quick() {
+		// thorough: every ordered triple of attempts (top level, in a function, in a loop in a function) for three values
+		for _, val := range []c19Val{c19Vals[0], c19Vals[8], c19Vals[len(c19Vals)-1]} {
+			for _, p1 := range c19Paths {
+				for _, p2 := range c19Paths {
+					for _, p3 := range c19Paths {
+						a1 := c19Render(p1, "C", val.other)
+						a2 := c19Render(strings.Replace(c19Scopes[1].tpl, "%s", p2, 1), "C", val.other)
+						a3 := c19Render(strings.Replace(c19Scopes[4].tpl, "%s", p3, 1), "C", val.other)
+						if ok = do("C", val, []string{a1, a2, a3}, []string{p1 + " [top]", p2 + " [func]", p3 + " [func-loop]"}); !ok {
+							break
+						}
+					}
+					if !ok {
+						break
+					}
+				}
+				if !ok {
+					break
+				}
+			}
+		}
+		if ok {
+			bound += "; every ordered triple of attempts (top level, function, loop in a function) for 3 values"
+		}
+	}
 	c.P.States = c.P.Traces
 	if ok {
 		c.P.Bound = bound + "; registers on and off; del + rebind checked to work after every case"
